@@ -10,6 +10,12 @@ TRUST = ("TLC explores the bounded model exhaustively; the code is bound by exec
 
 FRAME_TECH = "TLA+ spec (Frame/FrameOps/GroupOps) + TLC exhaustive enumeration of frames x arguments + monitor-style trace validation of real DataFrame calls"
 CHECKS = {
+ "C15": dict(engine="LoDOps",
+   text="LoDOps.tla states the Python list/dict reference semantics of 25 ListOfDicts methods (filter forms, stable None-last sort, unique, key editing, list-like operations incl. insert clamping, slicing with negative/absent bounds) with a Supported predicate for the free points; LoDOpsMC enumerates every list of <= 3 ragged items and every boundary argument and model-checks the operators against declarative restatements; single calls and seeded 3-step chains are executed on the real class (result class / AttributeDict items observed) and judged by the LoDOpsTrace monitor, each chain step against the state observed before it.",
+   design="§3 C15", technique="TLA+ spec (LoDOps) + TLC exhaustive enumeration + monitor-style trace validation of real calls and chains"),
+ "C16": dict(engine="LoDJoin",
+   text="LoDJoin.tla: first-match joins with plain equality (None matches None), FullJoinOK and AggOK predicates; LoDJoinMC model-checks the join relations on every pair of lists in the bound; seeded pairs are executed with five joins, same-name and renamed keys, a right-operand-unchanged observation after every join, and aggregate with a tag-recording function; judged by the LoDJoinTrace monitor.",
+   design="§3 C16", technique="TLA+ spec (LoDJoin) + TLC exhaustive model check + monitor-style trace validation of real calls"),
  "C09": dict(engine="CombineOps",
    text="CombineOps.tla: rbind / select / unselect / rename / colnames / cbind / update / modify as constructive operators plus the Untouched and RbindRowsOK predicates; CombineOpsMC enumerates base frames, every argument record (all select orders, all injective rename maps and colnames assignments incl. permutations, scalar/vector/callable modify values, clashing/new/broadcast second operands, 2-3 rbind operands with overlapping, disjoint and empty column sets) and model-checks the product; cases are executed on the real DataFrame and judged by the CombineOpsTrace monitor.",
    design="§3 C09", technique="TLA+ spec (CombineOps) + TLC exhaustive enumeration + monitor-style trace validation of real calls"),
@@ -32,6 +38,8 @@ CHECKS = {
    design="§3 C11", technique="TLA+ spec (VectorOps) + TLC exhaustive enumeration + monitor-style trace validation of real calls"),
 }
 ENGINES = [
+ dict(name="LoDOps", path="spec/LoDOps.tla", serves_properties=["C15"], kind_free_text="TLA+ LoDOps reference semantics + LoDOpsMC + LoDOpsTrace monitor (TLC)"),
+ dict(name="LoDJoin", path="spec/LoDJoin.tla", serves_properties=["C16"], kind_free_text="TLA+ LoDJoin predicates + LoDJoinMC + LoDJoinTrace monitor (TLC)"),
  dict(name="CombineOps", path="spec/CombineOps.tla", serves_properties=["C09"], kind_free_text="TLA+ CombineOps operators/predicates + CombineOpsMC + CombineOpsTrace monitor (TLC)"),
  dict(name="JoinOps", path="spec/JoinOps.tla", serves_properties=["C05"], kind_free_text="TLA+ JoinOps operators/predicates + JoinOpsMC + JoinOpsTrace monitor (TLC)"),
  dict(name="FrameOps", path="spec/FrameOps.tla", serves_properties=["C02", "C03"], kind_free_text="TLA+ Frame/FrameOps operators + FrameOpsMC generator + FrameOpsTrace monitor (TLC)"),
